@@ -186,6 +186,8 @@ class World:
             return target.copy()
         if m == "add":
             return target + xs()
+        if m == "radd":
+            return list(xs()) + target
         if m == "mul":
             return target * op["n"]
         if m == "imul":
@@ -394,12 +396,14 @@ def driver(cinco, seed, n_traces, length):
         events = []
         for _ in range(length):
             if rng.random() < 0.6:
-                m = rng.choice(["append", "insert", "setitem", "extend", "iadd", "setslice", "delitem", "delslice", "pop", "popi", "remove", "index", "count", "contains", "getitem", "getslice", "len", "sort", "reverse", "clear", "copy", "add", "mul", "imul", "eq"])
+                m = rng.choice(["append", "insert", "setitem", "extend", "iadd", "setslice", "delitem", "delslice", "pop", "popi", "remove", "index", "count", "contains", "getitem", "getslice", "len", "sort", "reverse", "clear", "copy", "add", "radd", "mul", "imul", "eq"])
                 op = {"m": m}
                 if m in ("append", "remove", "index", "count", "contains"):
                     op["x"] = item()
                 elif m in ("insert", "setitem"):
                     op.update(i=rng.randint(-4, 5), x=item())
+                elif m == "radd":
+                    op["src"] = {"k": "list", "vs": [item() for _ in range(rng.randint(0, 3))]}
                 elif m in ("extend", "iadd", "add"):
                     op["src"] = src()
                 elif m == "setslice":
